@@ -2,10 +2,11 @@
 //! cargo-fuzz targets (/verif/fuzz) and by `vcheck fuzz-replay`, so that a crash artefact is re-judged by exactly
 //! the same oracle without libFuzzer before it is reported.
 use crate::bits::hex;
-use crate::checks::{c01, c02, c05, c09, c20};
+use crate::checks::{c01, c02, c05, c09, c10, c12, c16, c17, c20};
 use crate::frame::frame;
 use crate::msggen::{self, MutOp, Recipe};
 use crate::registry::MSG_TABLE;
+use rtcm_rs::prelude::*;
 use serde_json::{json, Value as J};
 
 /// (property, signature, message, replay case)
@@ -180,6 +181,226 @@ pub fn run_encode_total(data: &[u8]) -> Vec<Finding> {
     }
     out
 }
+
+fn guarded<T>(f: impl FnOnce() -> Result<T, (String, String)>) -> Result<T, (String, String)> {
+    crate::infra::catch(f).unwrap_or_else(|p| Err((crate::infra::panic_signature(&p), format!("panic: {}", p))))
+}
+
+/// builder_history (C12): byte 0 = number of earlier steps (0..=10); every step is 18 bytes
+/// [kind, a_lo, a_hi, b_lo, b_hi, 13-byte mutation]: kind&3 = 0|3 pool entry a (the C12 pool: every type, full lists,
+/// refused-first and refused-late messages), 1 = the mutated corpus message (type a, base b, one mutation), 2 = a
+/// build_generated_message call (type a, seed b). The last step is the target.
+pub fn run_builder_history(data: &[u8]) -> Vec<Finding> {
+    let mut out = Vec::new();
+    if data.len() < 1 + 18 {
+        return out;
+    }
+    let want = 1 + (data[0] as usize % 11);
+    let pool = c12::pool(FUZZ_CORPUS_SEED);
+    let corp = msggen::corpus(FUZZ_CORPUS_SEED);
+    enum Owned {
+        P(usize),
+        M(Message, crate::value::Value),
+        G(u16, u64),
+    }
+    let mut owned: Vec<Owned> = Vec::new();
+    for ch in data[1..].chunks_exact(18).take(want) {
+        let a = u16::from_le_bytes([ch[1], ch[2]]);
+        let b = u16::from_le_bytes([ch[3], ch[4]]);
+        match ch[0] & 3 {
+            1 => {
+                let sel = u32::from_le_bytes([ch[5], ch[6], ch[7], ch[8]]);
+                let mut arg = [0u8; 8];
+                arg.copy_from_slice(&ch[10..18]);
+                let r = Recipe { type_index: a, base_index: b, ops: vec![(sel, ch[9], u64::from_le_bytes(arg))] };
+                let built = msggen::run_recipe(corp, &r, true);
+                if let Some(m) = built.message {
+                    owned.push(Owned::M(m, built.tree));
+                }
+            }
+            2 => {
+                let row = &MSG_TABLE[(a as usize * MSG_TABLE.len()) >> 16];
+                owned.push(Owned::G(row.number, b as u64));
+            }
+            _ => owned.push(Owned::P((a as usize * pool.len()) >> 16)),
+        }
+    }
+    if owned.is_empty() {
+        return out;
+    }
+    let steps: Vec<c12::StepRef> = owned
+        .iter()
+        .map(|o| match o {
+            Owned::P(i) => c12::StepRef::Build(&pool[*i].msg),
+            Owned::M(m, _) => c12::StepRef::Build(m),
+            Owned::G(n, s) => c12::StepRef::Generated(*n, *s),
+        })
+        .collect();
+    if let Err((sig, msg)) = c12::oracle_steps(&steps) {
+        let hist: Vec<J> = owned
+            .iter()
+            .map(|o| match o {
+                Owned::P(i) => pool[*i].tree.to_json(),
+                Owned::M(_, t) => t.to_json(),
+                Owned::G(n, s) => json!({"t":"generated","number":n,"seed":s}),
+            })
+            .collect();
+        out.push(("C12".to_string(), sig, msg, json!({"kind":"history","history":hist})));
+    }
+    out
+}
+
+/// msm_masks (C10): [cons, level, satellite mask (8), signal selector (4), cell bits (8), header (8), permutation
+/// seed (8), data bytes...] -> an admissible (S, G, C) triple by construction: the signal selector picks table
+/// entries, satellites are cut so that |S|*|G| <= 64, empty rows and columns get one cell.
+pub fn msm_spec_of(data: &[u8]) -> Option<(crate::msm::MsmSpec, u64)> {
+    use crate::msm::{MsmSpec, ALL_CONS, HEADER_REST_BITS};
+    if data.len() < 38 {
+        return None;
+    }
+    let cons = ALL_CONS[data[0] as usize % 7];
+    let level = 1 + data[1] % 7;
+    let u64at = |i: usize| u64::from_le_bytes([data[i], data[i + 1], data[i + 2], data[i + 3], data[i + 4], data[i + 5], data[i + 6], data[i + 7]]);
+    let satm = u64at(2);
+    let sigsel = u32::from_le_bytes([data[10], data[11], data[12], data[13]]);
+    let cellbits = u64at(14);
+    let header = u64at(22) & ((1u64 << HEADER_REST_BITS) - 1);
+    let perm = u64at(30);
+    let table = cons.table();
+    let mut sigs: Vec<u8> = table.iter().enumerate().filter(|(i, _)| sigsel >> (i % 32) & 1 == 1).map(|(_, t)| t.0).collect();
+    if sigs.is_empty() {
+        sigs.push(table[sigsel as usize % table.len()].0);
+    }
+    sigs.sort();
+    let ng = sigs.len();
+    let mut sats: Vec<u8> = (1..=64u8).filter(|s| satm >> (64 - *s as u32) & 1 == 1).collect();
+    if sats.is_empty() {
+        sats.push(1 + (satm % 64) as u8);
+    }
+    sats.truncate((64 / ng).max(1));
+    let ns = sats.len();
+    let mut cells: Vec<bool> = (0..ns * ng).map(|k| cellbits >> (k % 64) & 1 == 1).collect();
+    for i in 0..ns {
+        if !(0..ng).any(|j| cells[i * ng + j]) {
+            cells[i * ng + (i + (satm % 64) as usize) % ng] = true;
+        }
+    }
+    for j in 0..ng {
+        if !(0..ns).any(|i| cells[i * ng + j]) {
+            cells[((j + (sigsel % 64) as usize) % ns) * ng + j] = true;
+        }
+    }
+    let mut spec = MsmSpec { cons, level, header, sats, sigs, cells, sat_data: vec![], sig_data: vec![] };
+    // data patterns straight from the input bytes (zero when the input runs out)
+    let mut rd = data[38..].iter().copied();
+    let mut pat = |w: usize| -> u64 {
+        let mut v = 0u64;
+        for _ in 0..((w + 7) / 8) {
+            v = (v << 8) | rd.next().unwrap_or(0) as u64;
+        }
+        v & ((1u64 << w) - 1)
+    };
+    let n = spec.ncells();
+    spec.sat_data = crate::msm::sat_cols(level).iter().map(|w| (0..ns).map(|_| pat(*w)).collect()).collect();
+    spec.sig_data = crate::msm::sig_cols(level).iter().map(|w| (0..n).map(|_| pat(*w)).collect()).collect();
+    Some((spec, perm))
+}
+pub fn run_msm_masks(data: &[u8]) -> Vec<Finding> {
+    let mut out = Vec::new();
+    if let Some((spec, perm)) = msm_spec_of(data) {
+        if let Err((sig, msg)) = guarded(|| c10::oracle_spec(&spec, perm)) {
+            out.push(("C10".to_string(), sig, msg, c10::spec_json(&spec, perm)));
+        }
+    }
+    out
+}
+
+/// bias_lists (C16): [message selector, first-use selector, entries of 5 bytes: satellite, signal, grid index (2), flags]
+pub fn run_bias_lists(data: &[u8]) -> Vec<Finding> {
+    use crate::biasmsg::BiasMsg;
+    let mut out = Vec::new();
+    if data.len() < 2 {
+        return out;
+    }
+    let m = [BiasMsg::M1059, BiasMsg::M1065, BiasMsg::M1230][data[0] as usize % 3];
+    let g = c16::grid(m);
+    let sigs = m.signals();
+    let sat_range: u8 = match m {
+        BiasMsg::M1059 => 64,
+        BiasMsg::M1065 => 32,
+        BiasMsg::M1230 => 1,
+    };
+    let cap = if m == BiasMsg::M1230 { 4 } else { 390 };
+    let mut es: Vec<c16::Entry> = Vec::new();
+    let mut on_grid: Vec<bool> = Vec::new();
+    let mut seen = std::collections::HashSet::new();
+    for ch in data[2..].chunks_exact(5).take(cap) {
+        let sat = ch[0] % sat_range;
+        let (_, band, attr) = sigs[ch[1] as usize % sigs.len()];
+        // distinct (satellite, signal) keys by construction: the statement's precondition
+        if !seen.insert((sat, band, attr)) {
+            continue;
+        }
+        let k = (u16::from_le_bytes([ch[2], ch[3]]) as usize) % g.len();
+        let (bias, og) = if ch[4] & 1 == 1 && k + 1 < g.len() && k != g.len() / 2 - 1 {
+            let a = g[k] as f64;
+            let b = g[k + 1] as f64;
+            ((a + (b - a) * ((ch[4] >> 1) as f64 / 128.0)) as f32, (ch[4] >> 1) == 0)
+        } else {
+            (g[k], true)
+        };
+        es.push(c16::Entry { sat, band, attr, bias });
+        on_grid.push(og);
+    }
+    // odd selector: the builder's first use was one of the C12 disturbers (refused first / refused late / longest frames)
+    let pool = c12::pool(FUZZ_CORPUS_SEED);
+    let dist = c12::disturbers(FUZZ_CORPUS_SEED);
+    let before = if data[1] & 1 == 1 { Some(&pool[dist[(data[1] as usize >> 1) % dist.len()]].msg) } else { None };
+    if let Err((sig, msg)) = guarded(|| c16::oracle_encode_with(m, &es, &on_grid, before)) {
+        out.push(("C16".to_string(), sig, msg, c16::case_json(m, &es, &on_grid)));
+    }
+    out
+}
+
+/// text_fields (C17): byte 0 = mode. Mode bit 7 clear: the rest is a string in a compact code (byte < 0xF0 = that
+/// Latin-1 code point incl. NUL, 0xF0..=0xFF = the next three bytes as a code point) run through every text oracle;
+/// set: a 1029 frame with [character count, declared byte count, raw text bytes] (invalid UTF-8 must give Corrupt).
+pub fn text_of(data: &[u8]) -> String {
+    let mut s = String::new();
+    let mut i = 0;
+    while i < data.len() && s.len() < 1200 {
+        let b = data[i];
+        i += 1;
+        if b < 0xF0 {
+            s.push(b as char);
+        } else if i + 3 <= data.len() {
+            let cp = ((data[i] as u32) << 16 | (data[i + 1] as u32) << 8 | data[i + 2] as u32) % 0x11_0000;
+            i += 3;
+            s.push(char::from_u32(cp).unwrap_or('\u{FFFD}'));
+        }
+    }
+    s
+}
+pub fn run_text_fields(data: &[u8]) -> Vec<Finding> {
+    let mut out = Vec::new();
+    if data.is_empty() {
+        return out;
+    }
+    if data[0] & 0x80 == 0 {
+        let _ = msggen::corpus(FUZZ_CORPUS_SEED);
+        let s = text_of(&data[1..]);
+        if let Err((sig, msg)) = guarded(|| c17::one_string(&s).map(|_| ())) {
+            out.push(("C17".to_string(), sig, msg, json!({"kind":"string","chars":s.chars().map(|c| c as u32).collect::<Vec<_>>()})));
+        }
+    } else if data.len() >= 3 {
+        let text = &data[3..data.len().min(3 + 300)];
+        if let Err((sig, msg)) = guarded(|| c17::oracle_1029_frame(data[1] & 0x7F, data[2], text).map(|_| ())) {
+            out.push(("C17".to_string(), sig, msg, json!({"kind":"text-frame","chars":data[1] & 0x7F,"declared":data[2],"text":hex(text)})));
+        }
+    }
+    out
+}
+
 /// the fuzz targets use a fixed corpus seed so that a saved input means the same recipe in every process
 pub const FUZZ_CORPUS_SEED: u64 = 20261002;
 
@@ -188,6 +409,10 @@ pub fn run_target(target: &str, data: &[u8]) -> Vec<Finding> {
         "decode_total" => run_decode_total(data),
         "scan_model" => run_scan_model(data),
         "encode_total" => run_encode_total(data),
+        "builder_history" => run_builder_history(data),
+        "msm_masks" => run_msm_masks(data),
+        "bias_lists" => run_bias_lists(data),
+        "text_fields" => run_text_fields(data),
         _ => Vec::new(),
     }
 }
@@ -239,6 +464,87 @@ pub fn seed_inputs(target: &str) -> Vec<Vec<u8>> {
                 }
                 out.push(v);
             }
+        }
+        "builder_history" => {
+            // two- to six-step histories walking through the pool at regular strides, every step kind present
+            for k in 0..160u32 {
+                let n = 1 + (k % 5) as u8;
+                let mut v = vec![n];
+                for j in 0..=(n as u32) {
+                    let a = (k.wrapping_mul(409).wrapping_add(j * 9973) % 65536) as u16;
+                    let b = (k.wrapping_mul(31).wrapping_add(j * 7)) as u16;
+                    v.push(((k + j) % 4) as u8);
+                    v.extend_from_slice(&a.to_le_bytes());
+                    v.extend_from_slice(&b.to_le_bytes());
+                    v.extend_from_slice(&[0x80, 0x80, 0x80, 0x80, 3, 1, 2, 3, 4, 5, 6, 7, 8]);
+                }
+                out.push(v);
+            }
+        }
+        "msm_masks" => {
+            for c in 0..7u8 {
+                for l in 0..7u8 {
+                    for shape in 0..3u8 {
+                        let mut v = vec![c, l];
+                        let satm: u64 = match shape {
+                            0 => 0x8000_0000_0000_0001,
+                            1 => 0xFFFF_0000_0000_0000,
+                            _ => 0x0102_0408_1020_4080,
+                        };
+                        v.extend_from_slice(&satm.to_le_bytes());
+                        v.extend_from_slice(&[0x07u32, 0x01, 0xFFFF_FFFF][shape as usize].to_le_bytes());
+                        v.extend_from_slice(&0xA5A5_5A5A_F00F_0FF0u64.to_le_bytes());
+                        v.extend_from_slice(&[1, 2, 3, 4, 5, 6, 7, 8]);
+                        v.extend_from_slice(&[9, 9, 9, 9, 9, 9, 9, shape]);
+                        v.extend(std::iter::repeat(0x5Au8).take(64));
+                        out.push(v);
+                    }
+                }
+            }
+        }
+        "bias_lists" => {
+            for m in 0..3u8 {
+                for n in [0usize, 1, 4, 33, 70, 200, 390] {
+                    for first in [0u8, 1, 7] {
+                        let mut v = vec![m, first];
+                        for i in 0..n {
+                            v.extend_from_slice(&[(i / 12) as u8, (i % 12) as u8, (i * 37) as u8, (i * 11) as u8, (i % 3) as u8 * 65]);
+                        }
+                        out.push(v);
+                    }
+                }
+            }
+        }
+        "text_fields" => {
+            for t in msggen::TEXT_TOKENS.iter() {
+                for reps in [1usize, 7, 31, 127, 255] {
+                    let mut v = vec![0u8];
+                    let mut n = 0;
+                    'outer: loop {
+                        for ch in t.chars() {
+                            let cp = ch as u32;
+                            if cp < 0xF0 {
+                                v.push(cp as u8);
+                            } else {
+                                v.extend_from_slice(&[0xF0, (cp >> 16) as u8, (cp >> 8) as u8, cp as u8]);
+                            }
+                            n += 1;
+                            if n >= reps {
+                                break 'outer;
+                            }
+                        }
+                        if t.is_empty() {
+                            break;
+                        }
+                    }
+                    out.push(v);
+                }
+                let mut f = vec![0x80u8, t.chars().count() as u8, t.len() as u8];
+                f.extend_from_slice(t.as_bytes());
+                out.push(f);
+            }
+            out.push(vec![0x80, 2, 3, 0xE2, 0x82, 0x28]);
+            out.push(vec![0x80, 1, 4, 0xF0, 0x9F, 0x98]);
         }
         _ => {
             for t in 0..MSG_TABLE.len() {
